@@ -1,7 +1,689 @@
-//! C14 — not built yet.
-use crate::report::Tier;
+//! C14 — every access path to the property graph tells the same story.
+//! After EVERY operation of a random mutation history (direct LpgStore API, epoch 0, one thread)
+//! a cross-accessor invariant walker compares all accessors with the reference model.
 
-pub fn run(_tier: Tier, _seed: u64) -> ! {
-    println!("INCONCLUSIVE property=C14 reason=monitor not built yet");
-    std::process::exit(2)
+use crate::model::{Model, cmp_values};
+use crate::report::{Report, Tier};
+use crate::rng::{Rng, hash_str};
+use crate::util::catch;
+use crate::vals::{self, bit_eq};
+use grafeo_common::types::{EdgeId, NodeId, PropertyKey, Value};
+use grafeo_core::graph::Direction;
+use grafeo_core::graph::lpg::{CompareOp, LpgStore};
+use serde_json::json;
+use std::cmp::Ordering;
+use std::collections::{BTreeMap, BTreeSet};
+
+const LABELS: &[&str] = &["A", "B", "C"];
+const TYPES: &[&str] = &["R", "S"];
+const KEYS: &[&str] = &["k", "w", "z"];
+
+fn prop_value(r: &mut Rng) -> Value {
+    match r.below(12) {
+        0..=3 => Value::Int64(r.range(-3, 6)),
+        4 | 5 => Value::Float64(r.range(-4, 8) as f64 / 2.0),
+        6 | 7 => vals::s(*r.pick(&["a", "b", "ab", ""])),
+        8 => Value::Bool(r.chance(0.5)),
+        9 => r.pick(&[Value::Float64(0.0), Value::Float64(-0.0), Value::Int64(i64::MAX), Value::Int64(0), Value::Float64(f64::NAN)]).clone(),
+        10 => Value::Null,
+        _ => vals::random(r, 1),
+    }
+}
+
+struct Ctx<'a> {
+    rep: &'a mut Report,
+    store: LpgStore,
+    model: Model,
+    indexed: BTreeSet<String>,
+    backward: bool,
+    /// nodes deleted without detaching their edges (dangling endpoints are legal then)
+    hist: Vec<String>,
+    last_op: String,
+    /// base signatures already reported in this history (state invariants persist once broken;
+    /// each is attributed to the operation after which it first appeared)
+    fired: BTreeSet<String>,
+}
+
+/// Class of a probe value for equality-based lookups: what matters is whether it contains a
+/// float whose bit-identity and numeric equality differ (NaN, signed zero), at any depth.
+fn vclass(v: &Value) -> &'static str {
+    fn feat(v: &Value, nan: &mut bool, zero: &mut bool) {
+        match v {
+            Value::Float64(f) => {
+                *nan |= f.is_nan();
+                *zero |= *f == 0.0;
+            }
+            Value::Vector(x) => {
+                for f in x.iter() {
+                    *nan |= f.is_nan();
+                    *zero |= *f == 0.0;
+                }
+            }
+            Value::List(l) => l.iter().for_each(|x| feat(x, nan, zero)),
+            Value::Map(m) => m.values().for_each(|x| feat(x, nan, zero)),
+            _ => {}
+        }
+    }
+    let (mut nan, mut zero) = (false, false);
+    feat(v, &mut nan, &mut zero);
+    if nan {
+        "contains_nan"
+    } else if zero {
+        "contains_float_zero"
+    } else {
+        vals::class(v)
+    }
+}
+
+impl Ctx<'_> {
+    fn dev(&mut self, sig: &str, detail: serde_json::Value) {
+        if !self.fired.insert(sig.to_string()) {
+            return;
+        }
+        let tail: Vec<&String> = self.hist.iter().rev().take(12).collect();
+        let sig = if sig.starts_with("adj.") { format!("{sig}|backward={}", self.backward) } else { sig.to_string() };
+        self.rep.deviation(&sig, json!({"detail": detail, "first_appeared_after": self.last_op, "backward_adjacency": self.backward, "last_ops_newest_first": tail, "history_len": self.hist.len()}));
+    }
+
+    fn walk(&mut self, rng: &mut Rng) {
+        let m = self.model.clone();
+        let st = &self.store;
+        let mut devs: Vec<(String, serde_json::Value)> = Vec::new();
+        let mut d = |s: &str, j: serde_json::Value| devs.push((s.to_string(), j));
+
+        // ---- nodes
+        let mut ids: Vec<u64> = st.node_ids().iter().map(|n| n.as_u64()).collect();
+        ids.sort_unstable();
+        let mids: Vec<u64> = m.nodes.keys().copied().collect();
+        if ids != mids {
+            d("nodes.node_ids", json!({"got": ids, "expected": mids}));
+        }
+        if st.node_count() != mids.len() {
+            d("nodes.node_count", json!({"got": st.node_count(), "expected": mids.len()}));
+        }
+        let mut all: BTreeMap<u64, (BTreeSet<String>, BTreeMap<String, Value>)> = BTreeMap::new();
+        let mut dup = false;
+        for n in st.all_nodes() {
+            let e = (
+                n.labels.iter().map(|l| l.to_string()).collect::<BTreeSet<_>>(),
+                n.properties.iter().map(|(k, v)| (k.as_str().to_string(), v.clone())).collect::<BTreeMap<_, _>>(),
+            );
+            if all.insert(n.id.as_u64(), e).is_some() {
+                dup = true;
+            }
+        }
+        if dup {
+            d("nodes.all_nodes_repeats", json!({}));
+        }
+        if all.keys().copied().collect::<Vec<_>>() != mids {
+            d("nodes.all_nodes_ids", json!({"got": all.keys().collect::<Vec<_>>(), "expected": mids}));
+        }
+        for id in &m.ever_nodes {
+            let got = st.get_node(NodeId::new(*id));
+            match (m.nodes.get(id), got) {
+                (None, None) => {}
+                (None, Some(_)) => d("nodes.get_node_returns_deleted", json!({"id": id})),
+                (Some(_), None) => d("nodes.get_node_misses_live", json!({"id": id})),
+                (Some(mn), Some(n)) => {
+                    let labels: BTreeSet<String> = n.labels.iter().map(|l| l.to_string()).collect();
+                    if labels != mn.labels {
+                        d("nodes.get_node_labels", json!({"id": id, "got": labels, "expected": mn.labels}));
+                    }
+                    let props: BTreeMap<String, Value> = n.properties.iter().map(|(k, v)| (k.as_str().to_string(), v.clone())).collect();
+                    let same = props.len() == mn.props.len() && props.iter().all(|(k, v)| mn.props.get(k).is_some_and(|x| bit_eq(x, v)));
+                    if !same {
+                        d("nodes.get_node_props", json!({"id": id, "got": format!("{props:?}"), "expected": format!("{:?}", mn.props)}));
+                    }
+                    if let Some(a) = all.get(id) {
+                        if a.0 != mn.labels {
+                            d("nodes.all_nodes_labels", json!({"id": id}));
+                        }
+                    }
+                    for k in KEYS {
+                        let g = st.get_node_property(NodeId::new(*id), &PropertyKey::new(*k));
+                        let e = mn.props.get(*k);
+                        let ok = match (&g, e) {
+                            (None, None) => true,
+                            (Some(a), Some(b)) => bit_eq(a, b),
+                            _ => false,
+                        };
+                        if !ok {
+                            d("nodes.get_node_property", json!({"id": id, "key": k, "got": g.as_ref().map(vals::show), "expected": e.map(vals::show)}));
+                        }
+                    }
+                }
+            }
+        }
+        // batch getter agrees
+        let live: Vec<NodeId> = mids.iter().map(|i| NodeId::new(*i)).collect();
+        for k in KEYS {
+            let key = PropertyKey::new(*k);
+            let b = st.get_node_property_batch(&live, &key);
+            for (i, id) in mids.iter().enumerate() {
+                let e = m.nodes[id].props.get(*k);
+                let ok = match (&b[i], e) {
+                    (None, None) => true,
+                    (Some(a), Some(b)) => bit_eq(a, b),
+                    _ => false,
+                };
+                if !ok {
+                    d("nodes.get_node_property_batch", json!({"id": id, "key": k}));
+                }
+            }
+        }
+        // ---- labels
+        for l in LABELS {
+            let mut got: Vec<u64> = st.nodes_by_label(l).iter().map(|n| n.as_u64()).collect();
+            got.sort_unstable();
+            let exp = m.with_label(l);
+            if got != exp {
+                let extra: Vec<&u64> = got.iter().filter(|x| !exp.contains(x)).collect();
+                let kind = if extra.iter().any(|x| !m.nodes.contains_key(x)) {
+                    "label.nodes_by_label_returns_deleted"
+                } else if !extra.is_empty() {
+                    "label.nodes_by_label_extra"
+                } else {
+                    "label.nodes_by_label_missing"
+                };
+                d(kind, json!({"label": l, "got": got, "expected": exp}));
+            }
+            let mut got2: Vec<u64> = st.nodes_with_label(l).map(|n| n.id.as_u64()).collect();
+            got2.sort_unstable();
+            if got2 != exp {
+                d("label.nodes_with_label", json!({"label": l, "got": got2, "expected": exp}));
+            }
+        }
+        // ---- edges
+        let mut eall: BTreeMap<u64, (u64, u64, String)> = BTreeMap::new();
+        let mut edup = false;
+        for e in st.all_edges() {
+            if eall.insert(e.id.as_u64(), (e.src.as_u64(), e.dst.as_u64(), e.edge_type.to_string())).is_some() {
+                edup = true;
+            }
+        }
+        if edup {
+            d("edges.all_edges_repeats", json!({}));
+        }
+        let meids: Vec<u64> = m.edges.keys().copied().collect();
+        if eall.keys().copied().collect::<Vec<_>>() != meids {
+            d("edges.all_edges_ids", json!({"got": eall.keys().collect::<Vec<_>>(), "expected": meids}));
+        }
+        if st.edge_count() != meids.len() {
+            d("edges.edge_count", json!({"got": st.edge_count(), "expected": meids.len()}));
+        }
+        for id in &m.ever_edges {
+            let got = st.get_edge(EdgeId::new(*id));
+            match (m.edges.get(id), got) {
+                (None, None) => {}
+                (None, Some(_)) => d("edges.get_edge_returns_deleted", json!({"id": id})),
+                (Some(_), None) => d("edges.get_edge_misses_live", json!({"id": id})),
+                (Some(me), Some(e)) => {
+                    if (e.src.as_u64(), e.dst.as_u64(), e.edge_type.as_str()) != (me.src, me.dst, me.ty.as_str()) {
+                        d("edges.get_edge_shape", json!({"id": id}));
+                    }
+                    let props: BTreeMap<String, Value> = e.properties.iter().map(|(k, v)| (k.as_str().to_string(), v.clone())).collect();
+                    let same = props.len() == me.props.len() && props.iter().all(|(k, v)| me.props.get(k).is_some_and(|x| bit_eq(x, v)));
+                    if !same {
+                        d("edges.get_edge_props", json!({"id": id, "got": format!("{props:?}"), "expected": format!("{:?}", me.props)}));
+                    }
+                    if st.edge_type(EdgeId::new(*id)).map(|s| s.to_string()) != Some(me.ty.clone()) {
+                        d("edges.edge_type", json!({"id": id}));
+                    }
+                }
+            }
+            if !m.edges.contains_key(id) && st.edge_type(EdgeId::new(*id)).is_some() {
+                d("edges.edge_type_of_deleted", json!({"id": id}));
+            }
+        }
+        for t in TYPES {
+            let mut got: Vec<u64> = st.edges_with_type(t).map(|e| e.id.as_u64()).collect();
+            got.sort_unstable();
+            let exp: Vec<u64> = m.edges.iter().filter(|(_, e)| e.ty == *t).map(|(i, _)| *i).collect();
+            if got != exp {
+                d("edges.edges_with_type", json!({"type": t, "got": got, "expected": exp}));
+            }
+        }
+        // adjacency for every node ever seen (deleted nodes may keep edges if not detached:
+        // the model keeps those edges too, so the demand is the same)
+        for n in &m.ever_nodes {
+            let nid = NodeId::new(*n);
+            let mut out: Vec<(u64, u64)> = st.edges_from(nid, Direction::Outgoing).map(|(a, b)| (a.as_u64(), b.as_u64())).collect();
+            out.sort_unstable();
+            let eout = m.out_edges(*n);
+            if out != eout {
+                let kind = if out.iter().any(|(_, e)| !m.edges.contains_key(e)) { "adj.out_returns_deleted_edge" } else if out.len() > eout.len() { "adj.out_extra" } else { "adj.out_missing" };
+                d(kind, json!({"node": n, "got": out, "expected": eout}));
+            }
+            if st.out_degree(nid) != eout.len() {
+                d("adj.out_degree", json!({"node": n, "got": st.out_degree(nid), "expected": eout.len()}));
+            }
+            let mut nb: Vec<u64> = st.neighbors(nid, Direction::Outgoing).map(|x| x.as_u64()).collect();
+            nb.sort_unstable();
+            let mut enb: Vec<u64> = eout.iter().map(|x| x.0).collect();
+            enb.sort_unstable();
+            if nb != enb {
+                d("adj.neighbors_out", json!({"node": n, "got": nb, "expected": enb}));
+            }
+            // incoming
+            let ein = m.in_edges(*n);
+            let mut inc: Vec<(u64, u64)> = st.edges_to(nid).iter().map(|(a, b)| (a.as_u64(), b.as_u64())).collect();
+            inc.sort_unstable();
+            if inc != ein {
+                let kind = if inc.iter().any(|(_, e)| !m.edges.contains_key(e)) { "adj.in_returns_deleted_edge" } else if inc.len() > ein.len() { "adj.in_extra" } else { "adj.in_missing" };
+                d(kind, json!({"node": n, "got": inc, "expected": ein}));
+            }
+            if st.in_degree(nid) != ein.len() {
+                d("adj.in_degree", json!({"node": n, "got": st.in_degree(nid), "expected": ein.len()}));
+            }
+            if self.backward {
+                let mut inc2: Vec<(u64, u64)> = st.edges_from(nid, Direction::Incoming).map(|(a, b)| (a.as_u64(), b.as_u64())).collect();
+                inc2.sort_unstable();
+                if inc2 != ein {
+                    d("adj.edges_from_incoming", json!({"node": n, "got": inc2, "expected": ein}));
+                }
+                let mut both: Vec<(u64, u64)> = st.edges_from(nid, Direction::Both).map(|(a, b)| (a.as_u64(), b.as_u64())).collect();
+                both.sort_unstable();
+                let mut eboth: Vec<(u64, u64)> = eout.iter().chain(ein.iter()).copied().collect();
+                eboth.sort_unstable();
+                if both != eboth {
+                    d("adj.edges_from_both", json!({"node": n, "got": both, "expected": eboth}));
+                }
+            }
+        }
+        // ---- property lookup: index vs scan vs model
+        for k in KEYS {
+            // probe values: every value present + a few absent
+            let mut probes: Vec<Value> = m.nodes.values().filter_map(|n| n.props.get(*k).cloned()).collect();
+            probes.push(Value::Int64(99));
+            probes.push(Value::Float64(1.0));
+            probes.push(Value::Int64(1));
+            probes.truncate(14);
+            for v in &probes {
+                let mut got: Vec<u64> = st.find_nodes_by_property(k, v).iter().map(|n| n.as_u64()).collect();
+                got.sort_unstable();
+                got.dedup();
+                // specification: "a property lookup through an index equals a scan for that value":
+                // scan = nodes whose stored value == probe (Value equality)
+                let exp: Vec<u64> = m.nodes.iter().filter(|(_, n)| n.props.get(*k).is_some_and(|x| x == v)).map(|(i, _)| *i).collect();
+                if got != exp {
+                    let path = if self.indexed.contains(*k) { "index" } else { "scan" };
+                    let kind = if got.iter().any(|x| !m.nodes.contains_key(x)) {
+                        "returns_deleted"
+                    } else if got.iter().any(|x| !exp.contains(x)) {
+                        "extra"
+                    } else {
+                        "missing"
+                    };
+                    d(&format!("prop.find_by_property[{path}].{kind}|{}", vclass(v)), json!({"key": k, "value": vals::show(v), "got": got, "expected": exp}));
+                }
+                let conds = [(*k, v.clone())];
+                let mut got2: Vec<u64> = st.find_nodes_by_properties(&conds).iter().map(|n| n.as_u64()).collect();
+                got2.sort_unstable();
+                got2.dedup();
+                if got2 != got {
+                    d("prop.find_by_properties_vs_find_by_property", json!({"key": k, "value": vals::show(v), "single": got, "multi": got2}));
+                }
+            }
+        }
+        // ---- zone map soundness + range finder
+        for _ in 0..12 {
+            let k = *rng.pick(KEYS);
+            let key = PropertyKey::new(k);
+            let lit = prop_value(rng);
+            if matches!(lit, Value::Null) {
+                continue;
+            }
+            let (op, name): (CompareOp, &str) = *rng.pick(&[
+                (CompareOp::Eq, "eq"),
+                (CompareOp::Ne, "ne"),
+                (CompareOp::Lt, "lt"),
+                (CompareOp::Le, "le"),
+                (CompareOp::Gt, "gt"),
+                (CompareOp::Ge, "ge"),
+            ]);
+            let sat = |x: &Value| -> bool {
+                match name {
+                    "eq" => x == &lit,
+                    // only values comparable with the literal count (whether 'a' <> 0 holds is
+                    // the filter's business, judged by C10's differential)
+                    "ne" => cmp_values(x, &lit).is_some_and(|o| o != Ordering::Equal),
+                    _ => match cmp_values(x, &lit) {
+                        None => false,
+                        Some(o) => match name {
+                            "lt" => o == Ordering::Less,
+                            "le" => o != Ordering::Greater,
+                            "gt" => o == Ordering::Greater,
+                            _ => o != Ordering::Less,
+                        },
+                    },
+                }
+            };
+            let matches: Vec<u64> = m.nodes.iter().filter(|(_, n)| n.props.get(k).is_some_and(&sat)).map(|(i, _)| *i).collect();
+            if !st.node_property_might_match(&key, op, &lit) && !matches.is_empty() {
+                d(&format!("zonemap.might_match_false_but_match_exists|{name}|{}", vclass(&lit)), json!({"key": k, "literal": vals::show(&lit), "matching_nodes": matches}));
+            }
+            // range finder: lit as lower/upper bound
+            if matches!(name, "gt" | "ge" | "lt" | "le") {
+                let (min, max, mi, ma) = match name {
+                    "gt" => (Some(&lit), None, false, false),
+                    "ge" => (Some(&lit), None, true, false),
+                    "lt" => (None, Some(&lit), false, false),
+                    _ => (None, Some(&lit), false, true),
+                };
+                let mut got: Vec<u64> = st.find_nodes_in_range(k, min, max, mi, ma).iter().map(|n| n.as_u64()).collect();
+                got.sort_unstable();
+                // the range finder documents same-kind comparison only; Int/Float mixing is
+                // judged against the generic filter in C10, not here
+                let same_kind = |x: &Value| std::mem::discriminant(x) == std::mem::discriminant(&lit);
+                let matches: Vec<u64> = m.nodes.iter().filter(|(_, n)| n.props.get(k).is_some_and(|x| same_kind(x) && sat(x))).map(|(i, _)| *i).collect();
+                if got != matches {
+                    let kind = if got.iter().any(|x| !matches.contains(x)) { "extra" } else { "missing" };
+                    d(&format!("range.find_nodes_in_range.{kind}|{name}|{}", vclass(&lit)), json!({"key": k, "literal": vals::show(&lit), "got": got, "expected": matches}));
+                }
+            }
+        }
+        drop(d);
+        for (s, j) in devs {
+            self.dev(&s, j);
+        }
+    }
+}
+
+fn run_history(rep: &mut Report, seed: u64, case: u64, len: usize, backward: bool, hub: bool) {
+    let mut rng = Rng::new(seed, "C14", case);
+    let store = if backward {
+        LpgStore::new()
+    } else {
+        // LpgStoreConfig is not re-exported; build it through inference
+        fn build<C: Default, R>(ctor: fn(C) -> R, tweak: fn(&mut C)) -> R {
+            let mut c = C::default();
+            tweak(&mut c);
+            ctor(c)
+        }
+        build(LpgStore::with_config, |c| c.backward_edges = false)
+    };
+    let mut c = Ctx { rep, store, model: Model::default(), indexed: BTreeSet::new(), backward, hist: Vec::new(), last_op: String::new(), fired: BTreeSet::new() };
+    let mut kinds: BTreeSet<&'static str> = BTreeSet::new();
+    let mut max_degree = 0usize;
+    for _step in 0..len {
+        let live: Vec<u64> = c.model.nodes.keys().copied().collect();
+        let elive: Vec<u64> = c.model.edges.keys().copied().collect();
+        let w = [12u32, if hub { 40 } else { 14 }, 5, 6, 9, 4, 6, 3, 5, 4, 2, 1, 1, 1];
+        let op = rng.weighted(&w);
+        let name: &'static str;
+        match op {
+            0 => {
+                name = "create_node";
+                let nl = rng.below(3);
+                let labels: Vec<&str> = (0..nl).map(|_| *rng.pick(LABELS)).collect::<BTreeSet<_>>().into_iter().collect();
+                if rng.chance(0.5) {
+                    let id = c.store.create_node(&labels);
+                    c.model.add_node(id.as_u64(), &labels, &[]);
+                    c.hist.push(format!("create_node({labels:?}) -> {}", id.as_u64()));
+                } else {
+                    let np = 1 + rng.below(2);
+                    let props: Vec<(&str, Value)> = (0..np).map(|i| (KEYS[i], prop_value(&mut rng))).collect();
+                    let id = c.store.create_node_with_props(&labels, props.iter().map(|(k, v)| (PropertyKey::new(*k), v.clone())));
+                    c.model.add_node(id.as_u64(), &labels, &props);
+                    c.hist.push(format!("create_node_with_props({labels:?}, {:?}) -> {}", props.iter().map(|(k, v)| format!("{k}={}", vals::show(v))).collect::<Vec<_>>(), id.as_u64()));
+                }
+            }
+            1 => {
+                name = "create_edge";
+                if live.is_empty() {
+                    continue;
+                }
+                let s = if hub { live[0] } else { *rng.pick(&live) };
+                let t = if rng.chance(0.15) { s } else { *rng.pick(&live) };
+                let (s, t) = if hub && rng.chance(0.3) { (t, s) } else { (s, t) };
+                let ty = *rng.pick(TYPES);
+                let id = c.store.create_edge(NodeId::new(s), NodeId::new(t), ty);
+                c.model.add_edge(id.as_u64(), s, t, ty, &[]);
+                c.hist.push(format!("create_edge({s},{t},{ty}) -> {}", id.as_u64()));
+            }
+            2 => {
+                name = "delete_node_detach";
+                if live.is_empty() {
+                    continue;
+                }
+                let n = *rng.pick(&live);
+                c.store.delete_node_edges(NodeId::new(n));
+                let ok = c.store.delete_node(NodeId::new(n));
+                let mok = c.model.del_node(n, true);
+                c.hist.push(format!("delete_node_edges({n}); delete_node({n}) -> {ok}"));
+                if ok != mok {
+                    c.last_op = name.into();
+                    c.dev("ret.delete_node", json!({"got": ok, "expected": mok}));
+                }
+            }
+            3 => {
+                name = "delete_edge";
+                let id = if !elive.is_empty() && rng.chance(0.9) { *rng.pick(&elive) } else { rng.below(40) as u64 };
+                let ok = c.store.delete_edge(EdgeId::new(id));
+                let mok = c.model.del_edge(id);
+                c.hist.push(format!("delete_edge({id}) -> {ok}"));
+                if ok != mok {
+                    c.last_op = name.into();
+                    c.dev("ret.delete_edge", json!({"id": id, "got": ok, "expected": mok}));
+                }
+            }
+            4 => {
+                name = "set_node_property";
+                if live.is_empty() {
+                    continue;
+                }
+                let n = *rng.pick(&live);
+                let k = *rng.pick(KEYS);
+                let v = prop_value(&mut rng);
+                c.store.set_node_property(NodeId::new(n), k, v.clone());
+                c.hist.push(format!("set_node_property({n},{k},{})", vals::show(&v)));
+                c.model.nodes.get_mut(&n).unwrap().props.insert(k.to_string(), v);
+            }
+            5 => {
+                name = "remove_node_property";
+                if live.is_empty() {
+                    continue;
+                }
+                let n = *rng.pick(&live);
+                let k = *rng.pick(KEYS);
+                let got = c.store.remove_node_property(NodeId::new(n), k);
+                let exp = c.model.nodes.get_mut(&n).unwrap().props.remove(k);
+                c.hist.push(format!("remove_node_property({n},{k})"));
+                let ok = match (&got, &exp) {
+                    (None, None) => true,
+                    (Some(a), Some(b)) => bit_eq(a, b),
+                    _ => false,
+                };
+                if !ok {
+                    c.last_op = name.into();
+                    c.dev("ret.remove_node_property", json!({"got": got.as_ref().map(vals::show), "expected": exp.as_ref().map(vals::show)}));
+                }
+            }
+            6 => {
+                name = "set_edge_property";
+                if elive.is_empty() {
+                    continue;
+                }
+                let e = *rng.pick(&elive);
+                let k = *rng.pick(KEYS);
+                let v = prop_value(&mut rng);
+                c.store.set_edge_property(EdgeId::new(e), k, v.clone());
+                c.hist.push(format!("set_edge_property({e},{k},{})", vals::show(&v)));
+                c.model.edges.get_mut(&e).unwrap().props.insert(k.to_string(), v);
+            }
+            7 => {
+                name = "remove_edge_property";
+                if elive.is_empty() {
+                    continue;
+                }
+                let e = *rng.pick(&elive);
+                let k = *rng.pick(KEYS);
+                c.store.remove_edge_property(EdgeId::new(e), k);
+                c.model.edges.get_mut(&e).unwrap().props.remove(k);
+                c.hist.push(format!("remove_edge_property({e},{k})"));
+            }
+            8 => {
+                name = "add_label";
+                if live.is_empty() {
+                    continue;
+                }
+                let n = *rng.pick(&live);
+                let l = *rng.pick(LABELS);
+                let ok = c.store.add_label(NodeId::new(n), l);
+                let mok = c.model.nodes.get_mut(&n).unwrap().labels.insert(l.to_string());
+                c.hist.push(format!("add_label({n},{l}) -> {ok}"));
+                if ok != mok {
+                    c.last_op = name.into();
+                    c.dev("ret.add_label", json!({"got": ok, "expected": mok}));
+                }
+            }
+            9 => {
+                name = "remove_label";
+                if live.is_empty() {
+                    continue;
+                }
+                let n = *rng.pick(&live);
+                let l = *rng.pick(LABELS);
+                let ok = c.store.remove_label(NodeId::new(n), l);
+                let mok = c.model.nodes.get_mut(&n).unwrap().labels.remove(l);
+                c.hist.push(format!("remove_label({n},{l}) -> {ok}"));
+                if ok != mok {
+                    c.last_op = name.into();
+                    c.dev("ret.remove_label", json!({"got": ok, "expected": mok}));
+                }
+            }
+            10 => {
+                let k = *rng.pick(KEYS);
+                if c.indexed.contains(k) {
+                    name = "drop_property_index";
+                    c.store.drop_property_index(k);
+                    c.indexed.remove(k);
+                } else {
+                    name = "create_property_index";
+                    c.store.create_property_index(k);
+                    c.indexed.insert(k.to_string());
+                }
+                c.hist.push(format!("{name}({k})"));
+            }
+            11 => {
+                name = "statistics";
+                if rng.chance(0.5) {
+                    c.store.compute_statistics();
+                } else {
+                    c.store.ensure_statistics_fresh();
+                }
+                c.hist.push("statistics".into());
+            }
+            12 => {
+                name = "rebuild_zone_maps";
+                c.store.rebuild_zone_maps();
+                c.hist.push("rebuild_zone_maps".into());
+            }
+            _ => {
+                name = "delete_node_plain";
+                // only nodes without edges: deleting a node that still has edges leaves
+                // dangling endpoints by documented design (delete_node_edges first)
+                let cand: Vec<u64> = live.iter().copied().filter(|n| c.model.out_edges(*n).is_empty() && c.model.in_edges(*n).is_empty()).collect();
+                if cand.is_empty() {
+                    continue;
+                }
+                let n = *rng.pick(&cand);
+                let ok = c.store.delete_node(NodeId::new(n));
+                c.model.del_node(n, false);
+                c.hist.push(format!("delete_node({n}) -> {ok}"));
+            }
+        }
+        kinds.insert(name);
+        c.last_op = name.to_string();
+        c.rep.eval();
+        c.rep.count(&format!("op.{name}"), 1);
+        let r = catch(|| c.walk(&mut rng));
+        if let Err(p) = r {
+            c.dev(&format!("panic@{}", p.site), json!({"at": p.at, "msg": p.msg}));
+            break;
+        }
+        for n in c.model.nodes.keys() {
+            max_degree = max_degree.max(c.model.out_edges(*n).len());
+        }
+    }
+    let h = hash_str(&c.hist.join(";"));
+    if kinds.len() >= 5 {
+        c.rep.nontrivial(h);
+    }
+    if max_degree > 64 {
+        c.rep.count("histories_with_degree_over_64", 1);
+    }
+    if max_degree > 256 {
+        c.rep.count("histories_with_degree_over_256", 1);
+    }
+    if case < 2 {
+        let sample: Vec<&String> = c.hist.iter().take(12).collect();
+        c.rep.sample(json!({"case": case, "backward": backward, "first_ops": sample, "len": c.hist.len()}));
+    }
+}
+
+/// engine-level stratum: GrafeoDB direct API + validate() reports exactly the dangling refs
+fn run_validate(rep: &mut Report, seed: u64, case: u64) {
+    use grafeo_engine::GrafeoDB;
+    let mut rng = Rng::new(seed, "C14.validate", case);
+    let db = GrafeoDB::new_in_memory();
+    let mut m = Model::default();
+    for _ in 0..(3 + rng.below(8)) {
+        let id = db.create_node(&["A"]);
+        m.add_node(id.as_u64(), &["A"], &[]);
+    }
+    let live: Vec<u64> = m.nodes.keys().copied().collect();
+    for _ in 0..rng.below(14) {
+        let s = *rng.pick(&live);
+        let t = *rng.pick(&live);
+        let id = db.create_edge(NodeId::new(s), NodeId::new(t), "R");
+        m.add_edge(id.as_u64(), s, t, "R", &[]);
+    }
+    // delete a few nodes WITHOUT detaching: legal, validate() must report exactly the dangling refs
+    for _ in 0..rng.below(4) {
+        let n = *rng.pick(&live);
+        db.delete_node(NodeId::new(n));
+        m.del_node(n, false);
+    }
+    rep.eval();
+    rep.count("validate_runs", 1);
+    let res = db.validate();
+    let mut exp: BTreeSet<String> = BTreeSet::new();
+    for (id, e) in &m.edges {
+        if !m.nodes.contains_key(&e.src) {
+            exp.insert(format!("DANGLING_SRC edge:{id}"));
+        }
+        if !m.nodes.contains_key(&e.dst) {
+            exp.insert(format!("DANGLING_DST edge:{id}"));
+        }
+    }
+    let got: BTreeSet<String> = res.errors.iter().map(|e| format!("{} {}", e.code, e.context.clone().unwrap_or_default())).collect();
+    if got != exp {
+        let kind = if got.len() > exp.len() { "noisy" } else { "silent" };
+        rep.deviation(&format!("validate.{kind}"), json!({"got": got, "expected": exp}));
+    }
+    if res.is_valid() != exp.is_empty() {
+        rep.deviation("validate.is_valid", json!({}));
+    }
+}
+
+pub fn run(tier: Tier, seed: u64) -> ! {
+    let mut rep = Report::new("C14", tier, seed, "exploration");
+    rep.rule = "random mutation histories on LpgStore (create/delete node, create/delete edge incl. self-loops and parallel edges, set/remove property of mixed value types, add/remove label, create/drop property index, statistics refresh, zone-map rebuild), with and without backward adjacency, 'hub' histories that push one node's degree past the 64-entry chunk and compaction thresholds; after EVERY operation all accessors (node_ids, all_nodes, get_node, nodes_by_label, all_edges, get_edge, edge_type, edges_with_type, edges_from/edges_to/neighbors/degrees, find_nodes_by_property with and without index, find_nodes_in_range, might_match) are compared with the reference model. evaluations = operations followed by a full walk; non-trivial = history using >= 5 operation kinds, distinct by hash of the operation list".into();
+    let n = tier.pick(1500, 40_000);
+    for case in 0..n {
+        let backward = case % 3 != 2;
+        let hub = case % 5 == 4;
+        let len = if hub { tier.pick(150, 400) } else { 20 + (case as usize * 7) % tier.pick(60, 200) };
+        run_history(&mut rep, seed, case, len, backward, hub);
+    }
+    for case in 0..tier.pick(1000, 30_000) {
+        run_validate(&mut rep, seed, case);
+    }
+    rep.assumptions = vec![
+        "deleting a node that still has edges leaves dangling endpoints by documented design (delete_node_edges is the documented cascade); the walker only deletes edge-free nodes or detaches first, and validate() is checked to report exactly the dangling references".into(),
+        "ChunkedAdjacency compaction/freeze is exercised standalone in C15; here it is reached through LpgStore edge histories (hub histories cross degree 64/256)".into(),
+        "'scan for that value' means stored value == probe under Value equality".into(),
+    ];
+    rep.finish()
 }
